@@ -1,0 +1,20 @@
+//go:build verif
+
+package wrapped_http
+
+// Contracts checked by /verif (govc). Comments only; see /verif/DESIGN.md.
+
+// C20 — the handler registered on the inner mux for `pattern` is the given handler wrapped, from the outside in, by
+// in-flight gauge, request counter {method, code}, duration, request size, response size, all created on the mux's
+// registry wrapped with the label endpoint_pattern = pattern.
+//@ func (*serveMuxWithMetrics) Handle
+//@   property C20
+//@   modifies s.server
+//@   let W = prom.wrapped(s.registry, pattern)
+//@   ensures s.server.pattern == pattern && s.server.registrations == old(s.server.registrations) + 1
+//@   ensures s.server.handler == prom.instrumentedDef(s.registry, pattern, handler)
+
+//@ func NewWrappedServeMuxWithMetrics
+//@   property C20
+//@   ensures !isnil(result) && result.registry == registry
+//@   assert@return deref(result).server.registrations == 0
